@@ -57,6 +57,68 @@ type vfArr struct {
 	T []vfPair
 }
 
+// struct tags x element kinds: the tag of a field must not leak into the element type
+type vfTagT1 struct {
+	A uint64
+	T [][]uint64 `rlp:"tail"`
+}
+type vfTagT2 struct {
+	A []byte
+	T [][2]uint16 `rlp:"tail"`
+}
+type vfTagT3 struct {
+	A uint64
+	T []*vfPair `rlp:"tail"`
+}
+type vfTagT4 struct {
+	A uint64
+	T [][]byte `rlp:"tail"`
+}
+type vfTagT5 struct {
+	A uint64
+	T [][][]byte `rlp:"tail"`
+}
+type vfTagO1 struct {
+	A uint64
+	B [][]uint64 `rlp:"optional"`
+	C []vfPair   `rlp:"optional"`
+	D *vfPair    `rlp:"optional"`
+	E [][]byte   `rlp:"optional"`
+}
+type vfTagN1 struct {
+	A *vfPair     `rlp:"nil"`
+	B *[]uint64   `rlp:"nilList"`
+	C *[]byte     `rlp:"nilString"`
+	D *uint64     `rlp:"nil"`
+	E *[][]uint64 `rlp:"nil"`
+	F *[2]vfPair  `rlp:"nil"`
+}
+
+func vfGenU64s(r *vfRand) []uint64 {
+	q := []uint64{}
+	for j := r.Intn(4); j > 0; j-- {
+		q = append(q, r.U64()>>uint(r.Intn(64)))
+	}
+	return q
+}
+func vfGenU64ss(r *vfRand) [][]uint64 {
+	q := [][]uint64{}
+	for j := r.Intn(4); j > 0; j-- {
+		q = append(q, vfGenU64s(r))
+	}
+	return q
+}
+func vfGenBss(r *vfRand) [][]byte {
+	q := [][]byte{}
+	for j := r.Intn(4); j > 0; j-- {
+		q = append(q, r.Bytes(r.Pick(0, 1, 1, 2, 5, 60)))
+	}
+	return q
+}
+func vfGenPairP(r *vfRand) *vfPair {
+	return &vfPair{X: uint16(r.Intn(65536)), Y: r.Bytes(r.Intn(4))}
+}
+
 func vfGenTree(r *vfRand, d int) vfTree {
 	t := vfTree{V: r.U64() >> uint(r.Intn(64)), Kids: []vfTree{}}
 	if d > 0 {
@@ -540,6 +602,61 @@ func TestVerifC16(t *testing.T) {
 			vfTypedRoundTrip(o, r, "chain", vfGenChain(r, 4))
 			t5 := vfGenArr(r)
 			vfTypedRoundTrip(o, r, "arr", &t5)
+			// tags x element kinds
+			vfTypedRoundTrip(o, r, "tail-of-slices", &vfTagT1{A: r.U64() >> uint(r.Intn(64)), T: vfGenU64ss(r)})
+			t7 := &vfTagT2{A: r.Bytes(r.Intn(3)), T: [][2]uint16{}}
+			for j := r.Intn(4); j > 0; j-- {
+				t7.T = append(t7.T, [2]uint16{uint16(r.Intn(65536)), uint16(r.Intn(300))})
+			}
+			vfTypedRoundTrip(o, r, "tail-of-arrays", t7)
+			t8 := &vfTagT3{A: uint64(r.Intn(1000)), T: []*vfPair{}}
+			for j := r.Intn(4); j > 0; j-- {
+				t8.T = append(t8.T, vfGenPairP(r))
+			}
+			vfTypedRoundTrip(o, r, "tail-of-pointers", t8)
+			vfTypedRoundTrip(o, r, "tail-of-bytes", &vfTagT4{A: uint64(r.Intn(1000)), T: vfGenBss(r)})
+			t10 := &vfTagT5{A: uint64(r.Intn(1000)), T: [][][]byte{}}
+			for j := r.Intn(3); j > 0; j-- {
+				t10.T = append(t10.T, vfGenBss(r))
+			}
+			vfTypedRoundTrip(o, r, "tail-of-nested", t10)
+			t11 := &vfTagO1{A: uint64(r.Intn(1000))}
+			switch r.Intn(5) {
+			case 0:
+			case 1:
+				t11.B = vfGenU64ss(r)
+			case 2:
+				t11.B, t11.C = vfGenU64ss(r), []vfPair{*vfGenPairP(r)}
+			case 3:
+				t11.B, t11.D = vfGenU64ss(r), vfGenPairP(r)
+			default:
+				t11.B, t11.C, t11.D, t11.E = vfGenU64ss(r), []vfPair{*vfGenPairP(r), *vfGenPairP(r)}, vfGenPairP(r), vfGenBss(r)
+			}
+			vfTypedRoundTrip(o, r, "optional", t11)
+			t12 := &vfTagN1{}
+			if r.Bool() {
+				t12.A = vfGenPairP(r)
+			}
+			if r.Bool() {
+				q := append(vfGenU64s(r), 7)
+				t12.B = &q
+			}
+			if r.Bool() {
+				q := append(r.Bytes(r.Intn(4)), 9)
+				t12.C = &q
+			}
+			if r.Bool() {
+				q := 1 + r.U64()>>uint(1+r.Intn(63))
+				t12.D = &q
+			}
+			if r.Bool() {
+				q := append(vfGenU64ss(r), []uint64{})
+				t12.E = &q
+			}
+			if r.Bool() {
+				t12.F = &[2]vfPair{*vfGenPairP(r), *vfGenPairP(r)}
+			}
+			vfTypedRoundTrip(o, r, "nil-tags", t12)
 		}
 
 		// ---- (c) integers and typed values: encode and decode back
